@@ -42,6 +42,7 @@ func (c *vxNetConn) Read(p []byte) (int, error) {
 		return 0, io.EOF
 	}
 	n := copy(p, c.cur)
+	vxLibWrite(p[:n])
 	c.cur = c.cur[n:]
 	return n, nil
 }
@@ -54,6 +55,7 @@ func (c *vxNetConn) Write(p []byte) (int, error) {
 		return 0, io.ErrClosedPipe
 	}
 	b := make([]byte, len(p))
+	vxLibRead(p)
 	copy(b, p)
 	c.wire = append(c.wire, b...)
 	c.writes = append(c.writes, b)
